@@ -10,7 +10,9 @@ fn usage() -> ! {
 
 fn main() {
     // panics inside operations under test are caught and judged by the oracles; keep stderr quiet
-    std::panic::set_hook(Box::new(|_| {}));
+    if std::env::var_os("VERIF_PANIC_LOUD").is_none() {
+        std::panic::set_hook(Box::new(|_| {}));
+    }
     let args: Vec<String> = std::env::args().skip(1).collect();
     if args.len() < 2 {
         usage();
